@@ -395,6 +395,7 @@ func (d *Datastore) lowlevelTransactionSet(ctx context.Context, transaction *typ
 func (d *Datastore) TransactionSet(ctx context.Context, transactionId string, transactionIntents []*types.TransactionIntent, replaceIntent *types.TransactionIntent, transactionTimeout time.Duration, dryRun bool) (*sdcpb.TransactionSetResponse, error) {
 	var err error
 
+	types.VerifYieldPoint("set:enter")
 	// try locking the datastore if it is locked return the specific ErrDatastoreLocked error.
 	if !d.dmutex.TryLock() {
 		return nil, ErrDatastoreLocked
@@ -419,6 +420,7 @@ func (d *Datastore) TransactionSet(ctx context.Context, transactionId string, tr
 			return nil, ErrDatastoreLocked
 		default:
 			// Start a transaction and prepare to cancel it if any error occurs
+			types.VerifYieldPoint("set:register")
 			transactionGuard, err = d.transactionManager.RegisterTransaction(ctx, transaction)
 			if transactionGuard != nil {
 				defer transactionGuard.Done()
@@ -505,6 +507,7 @@ func cacheUpdateToSdcpbUpdate(lvs tree.LeafVariantSlice) ([]*sdcpb.Update, error
 func (d *Datastore) TransactionConfirm(ctx context.Context, transactionId string) error {
 	log.Infof("Transaction %s - Confirm", transactionId)
 
+	types.VerifYieldPoint("confirm:enter")
 	if !d.dmutex.TryLock() {
 		return ErrDatastoreLocked
 	}
@@ -516,6 +519,7 @@ func (d *Datastore) TransactionConfirm(ctx context.Context, transactionId string
 func (d *Datastore) TransactionCancel(ctx context.Context, transactionId string) error {
 	log.Infof("Transaction %s - Cancel", transactionId)
 
+	types.VerifYieldPoint("cancel:enter")
 	if !d.dmutex.TryLock() {
 		return ErrDatastoreLocked
 	}
